@@ -34,6 +34,7 @@ type netScenario struct {
 	sizesA   []int         // writes by the opener
 	sizesB   []int         // writes by the acceptor
 	gapMs    int           // pause between writes
+	dupEvery int           // >0: every dupEvery-th datagram (1 = every datagram) is delivered exactly twice, for the whole run; nothing is lost, delayed or reordered
 	respond  bool          // the acceptor starts writing only after it has read the opener's EOF (request/response)
 	deadline time.Duration // after faultEnd+outage: time allowed for completion
 }
@@ -51,6 +52,9 @@ func (sc *netScenario) policy(r *hv.Rand) hx.Policy {
 		mu.Lock()
 		defer mu.Unlock()
 		f := hx.Fate{Delay: time.Duration(sc.latMs) * time.Millisecond}
+		if sc.dupEvery > 0 && n%sc.dupEvery == 0 {
+			f.Dup = 1
+		}
 		if sc.outLen > 0 && t >= sc.outFrom && t < sc.outFrom+sc.outLen {
 			f.Drop = true
 			return f
@@ -244,8 +248,8 @@ func runNet(sc netScenario, emit func(hv.Case)) {
 	case <-time.After(2 * time.Second):
 	}
 
-	desc := fmt.Sprintf("net %s respond-after-eof=%v seed=%d loss=%d%% dup=%d%% jitter=%dms latency=%dms outage=[%v,+%v) faults-until=%v writesA=%v writesB=%v gap=%dms",
-		sc.class, sc.respond, sc.seed, sc.loss, sc.dup, sc.jitterMs, sc.latMs, sc.outFrom, sc.outLen, sc.faultEnd, summarize(sc.sizesA), summarize(sc.sizesB), sc.gapMs)
+	desc := fmt.Sprintf("net %s respond-after-eof=%v deliver-twice-every=%d seed=%d loss=%d%% dup=%d%% jitter=%dms latency=%dms outage=[%v,+%v) faults-until=%v writesA=%v writesB=%v gap=%dms",
+		sc.class, sc.respond, sc.dupEvery, sc.seed, sc.loss, sc.dup, sc.jitterMs, sc.latMs, sc.outFrom, sc.outLen, sc.faultEnd, summarize(sc.sizesA), summarize(sc.sizesB), sc.gapMs)
 	for _, d := range []struct {
 		name string
 		res  *dirResult
@@ -268,7 +272,7 @@ func runNet(sc netScenario, emit func(hv.Case)) {
 				tubes.VerifTubeDebug(tA), tubes.VerifTubeDebug(tB))
 		}
 		emit(hv.Case{Class: "net-" + sc.class, Desc: desc + " dir=" + d.name + note, Spec: res.ok, Sig: res.sig, What: res.what,
-			NT: sc.loss > 0 || sc.dup > 0 || sc.jitterMs > 0 || sc.outLen > 0, Key: fmt.Sprintf("%s|%d|%s", sc.class, sc.seed, d.name)})
+			NT: sc.loss > 0 || sc.dup > 0 || sc.dupEvery > 0 || sc.jitterMs > 0 || sc.outLen > 0, Key: fmt.Sprintf("%s|%d|%s", sc.class, sc.seed, d.name)})
 	}
 }
 
@@ -308,6 +312,13 @@ func genNet(r *hv.Rand) {
 		}
 		return s
 	}
+	upTo1000 := func(k int) []int {
+		var s []int
+		for i := 0; i < k; i++ {
+			s = append(s, 1+r.Intn(1000))
+		}
+		return s
+	}
 	dl := time.Duration(hv.Scale(40, 120)) * time.Second
 	n := hv.Scale(3, 12)
 	for i := 0; i < n; i++ {
@@ -319,6 +330,9 @@ func genNet(r *hv.Rand) {
 			netScenario{class: "latency", latMs: hv.Pick(r, []int{5, 20, 40}), sizesA: sizes(3, 100000), sizesB: sizes(3, 100000)},
 			netScenario{class: "respond-after-eof", latMs: hv.Pick(r, []int{2, 10, 30}), respond: true, sizesA: sizes(1, 2000), sizesB: append(sizes(2, 100000), 100000, 100000)},
 			netScenario{class: "respond-after-eof-loss", loss: 20, faultEnd: 3 * time.Second, latMs: 2, respond: true, sizesA: sizes(1, 2000), sizesB: append(sizes(2, 100000), 100000, 100000)},
+			// a link that delivers packets twice, in order, without loss: every acknowledgement arrives twice, so the
+			// sender sees very many duplicate acknowledgements over the life of the tube, never many in a row
+			netScenario{class: "small-writes-duplicating-link", dupEvery: hv.Pick(r, []int{1, 1, 2, 3}), sizesA: upTo1000(300 + r.Intn(300)), sizesB: upTo1000(300 + r.Intn(300))},
 			netScenario{class: "many-small-writes-loss", loss: 12, faultEnd: 4 * time.Second, sizesA: small(120), sizesB: small(40), gapMs: 2},
 			netScenario{class: "outage-recover", outFrom: 300 * time.Millisecond, outLen: time.Duration(600+r.Intn(1500)) * time.Millisecond, sizesA: sizes(4, 50000), sizesB: sizes(2, 50000), gapMs: 150},
 		)
